@@ -481,3 +481,171 @@ Proof.
       + rewrite (gfind_graph_of_none s b F) in G. discriminate. }
   split; [exact R|]. intros Hr. apply (Hl u n Hin). apply R. exact Hr.
 Qed.
+
+(* ------------------------------------------------------------------ incremental layer: the edit phase
+   (partial: only the direct parents after the edit phase are related to the spec layer's edit;
+   the repair phase is compared by correspondence) *)
+Lemma i_add_loop_insert_all : forall es s t,
+  match i_add_loop s t es with
+  | TOk (s', _) => insert_all s es = TOk s'
+  | TErr e => insert_all s es = TErr e
+  end.
+Proof.
+  induction es as [|e es IH]; intros s t; cbn [i_add_loop insert_all]; [reflexivity|].
+  destruct (upd_noover s e) as [s1|x]; [apply IH | reflexivity].
+Qed.
+
+Lemma find_gfind s u : gfind u (graph_of s) = option_map n_parents (find u s).
+Proof.
+  induction s as [|[k n] s IH]; cbn [find graph_of map gfind fst snd option_map]; [reflexivity|].
+  destruct (N.eqb u k); [reflexivity | exact IH].
+Qed.
+
+Lemma same_graph_find s s' u : graph_of s = graph_of s' ->
+  (find u s = None <-> find u s' = None).
+Proof.
+  intros G. pose proof (find_gfind s u) as A. pose proof (find_gfind s' u) as B. rewrite G in A.
+  rewrite A in B. destruct (find u s), (find u s'); cbn in B; split; intros; congruence.
+Qed.
+
+Definition g_remove (u : uid) (g : graph) : graph :=
+  map (fun kp => (fst kp, remove_set u (snd kp))) (filter (fun kp => negb (N.eqb u (fst kp))) g).
+
+Lemma graph_of_delete u s : graph_of (delete u s) = filter (fun kp => negb (N.eqb u (fst kp))) (graph_of s).
+Proof.
+  unfold delete, graph_of. induction s as [|[k n] s IH]; cbn [filter map fst snd]; [reflexivity|].
+  destruct (negb (N.eqb u k)); cbn [map fst snd]; rewrite IH; reflexivity.
+Qed.
+
+Lemma remove_set_notin u l : ~ In u l -> remove_set u l = l.
+Proof.
+  unfold remove_set. induction l as [|y l IH]; intros H; cbn [filter]; [reflexivity|].
+  destruct (N.eqb u y) eqn:E.
+  - apply N.eqb_eq in E. subst. exfalso. apply H. left; reflexivity.
+  - cbn [negb]. f_equal. apply IH. intros Hin. apply H. right; exact Hin.
+Qed.
+
+Lemma fold_remove_indirect_parents l : forall n, n_parents (fold_left remove_indirect l n) = n_parents n.
+Proof. induction l as [|a l IH]; intros n; cbn [fold_left]; [reflexivity|]. rewrite IH. reflexivity. Qed.
+
+Lemma spec_remove_graph s u : find u s <> None ->
+  graph_of (edit_remove s u) = g_remove u (graph_of s).
+Proof.
+  unfold edit_remove, g_remove. intros F. destruct (find u s); [|congruence].
+  rewrite <- graph_of_delete. unfold graph_of. rewrite !map_map. reflexivity.
+Qed.
+
+Lemma inc_remove_graph s t u : find u s <> None ->
+  graph_of (fst (i_remove_one (s, t) u)) = g_remove u (graph_of s).
+Proof.
+  unfold i_remove_one, g_remove. intros F. destruct (find u s) as [rem|]; [|congruence].
+  cbn [fst]. rewrite <- graph_of_delete. unfold graph_of. rewrite !map_map.
+  apply map_ext. intros [k n]. cbn [fst snd].
+  destruct (is_desc n u) eqn:D; cbn [fst snd].
+  - rewrite fold_remove_indirect_parents. reflexivity.
+  - f_equal. symmetry. apply remove_set_notin. intros Hin.
+    assert (is_desc n u = true) by (apply is_desc_In; unfold ancestors; apply in_or_app; left; exact Hin).
+    congruence.
+Qed.
+
+Lemma inc_remove_none s t u : find u s = None -> i_remove_one (s, t) u = (s, t).
+Proof. unfold i_remove_one. intros F. rewrite F. reflexivity. Qed.
+
+Lemma remove_edit_same_graph : forall us s s' t, graph_of s = graph_of s' ->
+  graph_of (fold_left edit_remove us s) = graph_of (fst (fold_left i_remove_one us (s', t))).
+Proof.
+  induction us as [|u us IH]; intros s s' t G; cbn [fold_left]; [exact G|].
+  destruct (i_remove_one (s', t) u) as [s1' t1] eqn:E.
+  apply IH.
+  destruct (find u s) as [n|] eqn:F.
+  - assert (F' : find u s' <> None).
+    { intros X. apply (same_graph_find s s' u G) in X. congruence. }
+    rewrite spec_remove_graph by congruence.
+    pose proof (inc_remove_graph s' t u F') as H. rewrite E in H. cbn [fst] in H. rewrite H, G. reflexivity.
+  - assert (F' : find u s' = None) by (apply (same_graph_find s s' u G); exact F).
+    rewrite (inc_remove_none s' t u F') in E. inversion E; subst.
+    unfold edit_remove. rewrite F. exact G.
+Qed.
+
+Lemma inc_remove_edit_parents c s us :
+  exists s1 t, i_remove c s us = finish c false t s1
+               /\ graph_of s1 = graph_of (fold_left edit_remove us s).
+Proof.
+  unfold i_remove. destruct (fold_left i_remove_one us (s, [])) as [s1 t] eqn:E.
+  exists s1, t. split; [reflexivity|].
+  pose proof (remove_edit_same_graph us s s [] eq_refl) as H. rewrite E in H. cbn [fst] in H.
+  symmetry; exact H.
+Qed.
+
+Definition g_upd (g : graph) (e : ent) : graph :=
+  match gfind (fst e) g with
+  | Some _ => map (fun kp => if N.eqb (fst e) (fst kp) then (fst kp, snd e) else kp) g
+  | None => g ++ [(fst e, snd e)]
+  end.
+
+Lemma graph_of_upd_over s e : graph_of (upd_over s e) = g_upd (graph_of s) e.
+Proof.
+  unfold upd_over, g_upd. rewrite find_gfind. destruct (find (fst e) s) as [old|]; cbn [option_map].
+  - unfold update, graph_of. rewrite !map_map. apply map_ext. intros [k n]. cbn [fst snd].
+    destruct (N.eqb (fst e) k); reflexivity.
+  - unfold graph_of. rewrite map_app. reflexivity.
+Qed.
+
+Lemma strip_parents n u old : n_parents (strip n u old) = n_parents n.
+Proof. unfold strip. rewrite fold_remove_indirect_parents. reflexivity. Qed.
+
+Lemma inc_upsert_graph s t e : graph_of (fst (i_upsert_one (s, t) e)) = g_upd (graph_of s) e.
+Proof.
+  unfold i_upsert_one. destruct (find (fst e) s) as [old|]; cbn [fst]; rewrite graph_of_upd_over; [|reflexivity].
+  f_equal. unfold graph_of. rewrite map_map. apply map_ext. intros [k n]. cbn [fst snd].
+  destruct (negb (N.eqb k (fst e)) && is_desc n (fst e)); cbn [fst snd]; [rewrite strip_parents|]; reflexivity.
+Qed.
+
+Lemma upsert_edit_same_graph : forall es s s' t, graph_of s = graph_of s' ->
+  graph_of (fold_left upd_over es s) = graph_of (fst (fold_left i_upsert_one es (s', t))).
+Proof.
+  induction es as [|e es IH]; intros s s' t G; cbn [fold_left]; [exact G|].
+  destruct (i_upsert_one (s', t) e) as [s1' t1] eqn:E.
+  apply IH. rewrite graph_of_upd_over.
+  pose proof (inc_upsert_graph s' t e) as H. rewrite E in H. cbn [fst] in H. rewrite H, G. reflexivity.
+Qed.
+
+Lemma inc_upsert_edit_parents c s es :
+  exists s1 t, i_upsert c s es = finish c true t s1
+               /\ graph_of s1 = graph_of (fold_left upd_over es s).
+Proof.
+  unfold i_upsert. destruct (fold_left i_upsert_one es (s, [])) as [s1 t] eqn:E.
+  exists s1, t. split; [reflexivity|].
+  pose proof (upsert_edit_same_graph es s s [] eq_refl) as H. rewrite E in H. cbn [fst] in H.
+  symmetry; exact H.
+Qed.
+
+Lemma inc_add_edit c s es :
+  match insert_all s es with
+  | TOk s1 => exists t, i_add c s es = finish c true t s1
+  | TErr e => i_add c s es = TErr e
+  end.
+Proof.
+  unfold i_add. pose proof (i_add_loop_insert_all es s []) as H.
+  destruct (i_add_loop s [] es) as [[s1 t]|e]; rewrite H; [exists t|]; reflexivity.
+Qed.
+
+(* the edit phase of every incremental operation produces the direct parents of the spec edit *)
+Lemma inc_edit_parents s o :
+  match s_edit s o with
+  | TErr e => i_op s o = TErr e
+  | TOk s1 =>
+      match o with
+      | OFrom c _ => i_op s o = if c then recompute (graph_of s1) else enforce_tc_and_dag s1
+      | OAdd c _ => exists t, i_op s o = finish c true t s1
+      | OUpsert c _ => exists s2 t, i_op s o = finish c true t s2 /\ graph_of s2 = graph_of s1
+      | ORemove c _ => exists s2 t, i_op s o = finish c false t s2 /\ graph_of s2 = graph_of s1
+      end
+  end.
+Proof.
+  destruct o; cbn [s_edit i_op].
+  - unfold i_from. destruct (insert_all [] es); reflexivity.
+  - apply inc_add_edit.
+  - apply inc_upsert_edit_parents.
+  - apply inc_remove_edit_parents.
+Qed.
